@@ -819,6 +819,106 @@ def rule_reparse_skips_zeros(col, facts):
 
 
 # ---------------------------------------------------------------------------------------------
+def rule_compare_equal_exhausted(col, facts):
+    """MPT-equal (odd-radix slow path): compare_bytes compares the input digits with the digits of the halfway
+    point generated on the fly and may answer `Equal` (an exact tie, resolved to even) only when the
+    *theoretical* digits are exhausted too.  On every path into the final `Ordering::Equal` the last test of
+    `num.data.is_empty()` is true; an input that merely ran out of digits first is `Less` (for an odd radix the
+    halfway expansion never terminates, so a strict prefix is strictly below it)."""
+    from rules.core import enum_paths
+    if "radix" not in facts.config:
+        return
+    R = "MPT-equal"
+    f = facts.fn(PF + "slow::compare_bytes")
+    tg = set()
+    for i, b in enumerate(f.blocks):
+        if not f.live(i):
+            continue
+        for st in b["s"]:
+            if st[0] == "=" and st[1] == [0, []] and st[2][0] == "agg" and st[2][1][0] == "adt" and st[2][1][1].endswith("cmp::Ordering") and st[2][1][3] == "Equal":
+                tg.add(i)
+    col.check(R, "compare_bytes:equal-site", len(tg) == 1, "%d `Ordering::Equal` results" % len(tg), f.loc())
+    if len(tg) != 1:
+        return
+    paths = enum_paths(f, 0, tg, limit=400000)
+    bad = 0
+    for _t, atoms in paths:
+        last = None
+        for e, p in atoms:
+            e = strip_casts(e)
+            if e[0] == "call" and last_seg(e[1]) == "is_empty" and "is_buffer" not in e[1]:
+                last = p
+        if last is not True:
+            bad += 1
+    col.check(R, "compare_bytes:equal-needs-exhausted-theoretical-digits", bad == 0 and len(paths) >= 3,
+              "%d of %d paths reach `Ordering::Equal` while the theoretical digits (num.data) were last seen non-empty: a strict prefix of the halfway expansion is treated as an exact tie and rounds to even instead of down" % (bad, len(paths)), f.loc(f.blocks[list(tg)[0]]["ts"]))
+
+
+# ---------------------------------------------------------------------------------------------
+def rule_grammar_guards(col, facts):
+    """CFG-grammar (format only): two documented conditions of the grammar that are visible as guards.
+    (a) NO_EXPONENT_WITHOUT_FRACTION is about the *presence of a fraction component* (a decimal point before
+        the exponent; `1.e3` has one): Error::ExponentWithoutFraction is guarded by `is_none()` of the very
+        Option that becomes Number.fraction, not by a digit count.
+    (b) A base prefix is `0` + the prefix character: the prefix character is looked for only after exactly
+        one leading zero, in the integer parser (skip_zeros() == 1) and in the float parser (one
+        read_if_value_cased(b'0'))."""
+    if "format" not in facts.config:
+        return
+    from rules.syntax import error_sites
+    R = "CFG-grammar"
+    pn = facts.fn(PF + "parse::parse_number")
+    fields = facts.adts[PF + "number::Number"][0]["fields"]
+    fi = fields.index("fraction")
+    frac_locals = set()
+    for i, b in enumerate(pn.blocks):
+        if not pn.live(i):
+            continue
+        for st in b["s"]:
+            if st[0] == "=" and st[2][0] == "agg" and st[2][1][0] == "adt" and st[2][1][1] == PF + "number::Number":
+                e = strip_casts(op_expr(pn, st[2][2][fi]))
+                if e[0] == "var":
+                    frac_locals.add(e[1])
+    col.check(R, "Number.fraction:source", len(frac_locals) == 1, "Number.fraction is built from %d different locals" % len(frac_locals), pn.loc())
+    sites = [(bb, sp) for bb, v, sp in error_sites(pn) if v == "ExponentWithoutFraction"]
+    col.check(R, "ExponentWithoutFraction:present", bool(sites), "Error::ExponentWithoutFraction is never produced", pn.loc())
+    for k, (bb, sp) in enumerate(sites):
+        ok = False
+        for _d, e, p in path_conditions(pn, bb):
+            e = strip_casts(e)
+            if e[0] == "call" and last_seg(e[1]) in ("is_none", "is_some"):
+                inner = strip_casts(e[2][0])
+                while inner[0] == "ref":
+                    inner = strip_casts(inner[1])
+                if inner[0] == "var" and inner[1] in frac_locals and ((last_seg(e[1]) == "is_none") == (p is True)):
+                    ok = True
+            if e[0] == "discr" and strip_casts(e[1])[0] == "var" and strip_casts(e[1])[1] in frac_locals and (p == ("eq", 0) or (isinstance(p, tuple) and p[0] == "ne" and 0 not in p[1])):
+                ok = True
+        col.check(R, "ExponentWithoutFraction#%d:fraction-absent" % k, ok,
+                  "Error::ExponentWithoutFraction is produced without having found the fraction component (the Option that becomes Number.fraction) absent: `1.e3`, which has a decimal point, is rejected or `1e3` accepted", pn.loc(sp))
+    # (b) prefix after exactly one zero
+    n = 0
+    for fname in ("lexical_parse_integer::algorithm::algorithm_complete", "lexical_parse_integer::algorithm::algorithm_partial", PF + "parse::parse_number"):
+        f = facts.fn(fname)
+        for bb, c, a, d, t in f.calls():
+            if last_seg(callee_name(c)) != "read_if_value" or len(a) < 2:
+                continue
+            if not any(last_seg(x[1]) == "base_prefix" for x in expr_calls(op_expr(f, a[1]))):
+                continue
+            n += 1
+            ok = False
+            for _d, e, p in path_conditions(f, bb):
+                e = strip_casts(e)
+                if e[0] == "bin" and e[1] == "Eq" and p is True and strip_casts(e[3]) == ("k", 1) and any(last_seg(x[1]) == "skip_zeros" for x in expr_calls(e[2])):
+                    ok = True
+                if e[0] == "call" and last_seg(e[1]) == "is_some" and p is True and any(last_seg(x[1]) == "read_if_value_cased" and strip_casts(x[2][-1]) == ("k", 48) for x in expr_calls(e)):
+                    ok = True
+            col.check(R, "%s:prefix-after-one-zero" % last_seg(fname), ok,
+                      "the base-prefix character is looked for without having consumed exactly one leading `0` (skip_zeros() == 1 / one read_if_value_cased(b'0')): `00x1F` is accepted, and the integer and float parsers disagree", f.loc(f.blocks[bb]["ts"]))
+    col.floor(R, "base-prefix look-ups", n, 3)
+
+
+# ---------------------------------------------------------------------------------------------
 def rule_bigfloat_bits(col, facts):
     """TBL-limits (Bigfloat): byte_comp scales b+h by radix^|sci_exp| up to 2^1075 and multiplies by a
     64-bit significand: EXPONENT_BIAS + 64 bits at least."""
